@@ -7,6 +7,17 @@ rnd = sys.argv[2] if len(sys.argv) > 2 else '1'
 props = {json.loads(l)['id']: json.loads(l) for l in open('/verif/properties.jsonl')}
 EXTRA = {
  '1': '',
+ '4': ('\nThis is a FOURTH round, and it is CLAUSE-DIRECTED.  First split the property statement into its separate clauses '
+       '(sentences, sub-sentences, items of an enumeration, the "in particular" cases).  Then produce THREE changes (A, B and '
+       'C, in {out}/A, {out}/B, {out}/C) that each violate a DIFFERENT clause -- prefer the clauses that look least likely to '
+       'have been attacked before (the last sentence, a parenthesised special case, an item in the middle of a list).  Start '
+       'notes.txt with the exact clause you target, quoted.  Earlier volunteers already tried: dropping or weakening guards, '
+       'dropped keyword arguments, swapped attributes, helpers with a wrong corner case, caching, fast paths, loop bounds, '
+       'or-defaults on falsy values, one-shot iterators, str-vs-tuple membership, table edits, mutable module state.  Any '
+       'mechanism is fine as long as the change is plausible, keeps the 164 tests green and needs a specific input to show.  '
+       'IMPORTANT: never use `git stash` (it is shared between all worktrees of this repository); to test against the pristine '
+       'tree use `git -C <worktree> diff > saved.diff; git -C <worktree> checkout -- .` and re-apply with `git apply`.  Keep '
+       'your individual messages short; write long content to files.\n'),
  '3': ('\nThis is a THIRD round: earlier volunteers already tried dropping or weakening single guards, dropping keyword '
        'arguments, swapping attributes, moving logic into helpers with a wrong corner case, caching/memoising, early exits and '
        'fast paths, and changed loop bounds.  Look somewhere else: (a) Python-semantics pitfalls -- `or`-defaults on falsy '
